@@ -346,11 +346,13 @@ def classify(case, items, kind):
     n = len(coeffs) - 1
     refine = m["refine"]
     if kind == "count": return None
-    if any(t[0] == 2 for t in tr):
-        return "KF-C10-A"                             # an Exhausted laguer exit
     polish = tr[n:] if n >= 4 else tr                 # degree >= 4: n deflation calls come first
     if kind == "non-finite" and refine and coeffs[0] == 0 and any(t[2] == 1 and t[3] == 0 for t in polish):
         return "KF-C10-B"                             # a0 = 0, refine, non-finite raised in a polishing call
+    if any(t[0] == 2 for t in tr):
+        return "KF-C10-A"                             # an Exhausted laguer exit
+    if kind == "backward-error" and any(t[0] == 0 and t[4] == 0 for t in tr):
+        return "KF-C10-E"                             # a convergence test |p(x)| <= err passed with err = inf (|z|^2 overflow in Complex::abs)
     if kind == "backward-error" and (not refine) and n >= 4 and all(t[0] in (0, 1) for t in tr) and all(t[3] == 1 for t in tr):
         return "KF-C10-C"                             # unpolished deflation drift: every call converged / stalled
     return None
